@@ -136,13 +136,20 @@ def _patch_response():
         return
 
     def read(self, size=-1):
+        # where the read starts: the position of the object's byte stream, whatever the attribute is called; a read whose
+        # position cannot be told is not reported at all (no observation, never a guess)
+        pos = -1
         try:
-            pos = self._bytes.tell()
+            import io
+            for v in vars(self).values():
+                if isinstance(v, io.BytesIO):
+                    pos = v.tell()
+                    break
         except Exception:  # noqa
             pos = -1
         got = orig(self, size)
         try:
-            if isinstance(size, int) and size > 0 and len(got) < size:
+            if pos >= 0 and isinstance(size, int) and size > 0 and len(got) < size:
                 rec = getattr(asyncio.get_event_loop(), "rec", None)
                 first = getattr(getattr(self, "command", None), "first_address", None)
                 if rec:
